@@ -1,13 +1,16 @@
 #!/bin/bash
-# seed_matrix.sh [tier] : apply every confirmed seeded change to /repo in turn, run the check of the
+# seed_matrix.sh [tier] [name-glob, default *] : apply every confirmed seeded change to /repo in turn, run the check of the
 # property it breaks, undo it, and write /verif/seeded/MATRIX.md (caught / missed, first rule that fired).
 TIER=${1:-quick}
+GLOB=${2:-*}
 cd /repo || exit 3
 [ -n "$(git status --porcelain)" ] && { echo "/repo not clean"; exit 3; }
 OUT=/verif/seeded/MATRIX.md
+if [ "$GLOB" = "*" ]; then
 echo "| seed | breaks | check run | result | first rule/sig that fired |" > $OUT
 echo "|---|---|---|---|---|" >> $OUT
-for d in /verif/seeded/*/; do
+fi
+for d in /verif/seeded/$GLOB/; do
   name=$(basename $d); [ -f $d/patch.diff ] || continue
   prop=$(python3 -c "import json;print(json.load(open('$d/meta.json'))['property'])")
   git apply --3way $d/patch.diff 2>/dev/null || git apply $d/patch.diff || { echo "| $name | $prop | - | PATCH DOES NOT APPLY | |" >> $OUT; git checkout -q -- .; continue; }
